@@ -44,11 +44,8 @@ pub fn generate(r: &mut Rng, tier: Tier) -> Scenario {
             let paths: Vec<String> = world.files.keys().cloned().collect();
             let p = r.pick(&paths).clone();
             let name = p.rsplit('/').next().unwrap_or(&p).to_string();
-            if let Some(t) = world.files.get_mut(&p) {
-                if !t.ends_with('\n') && !t.is_empty() {
-                    t.push('\n');
-                }
-                t.push_str(&format!(".include \"{name}\"\n"));
+            if let Some(t) = world.files.get(&p).cloned() {
+                world.files.insert(p, insert_line(&t, &format!(".include \"{name}\""), r));
                 shape_note = "self-include";
             }
         }
@@ -57,11 +54,8 @@ pub fn generate(r: &mut Rng, tier: Tier) -> Scenario {
             let (p, _, rel) = r.pick(&includes).clone();
             if let Some(child) = resolve(dir_of(&p), &rel) {
                 let back = world::relative(dir_of(&child), &p);
-                if let Some(t) = world.files.get_mut(&child) {
-                    if !t.ends_with('\n') && !t.is_empty() {
-                        t.push('\n');
-                    }
-                    t.push_str(&format!(".include \"{back}\"\n"));
+                if let Some(t) = world.files.get(&child).cloned() {
+                    world.files.insert(child, insert_line(&t, &format!(".include \"{back}\""), r));
                     shape_note = "two-cycle";
                 }
             }
@@ -98,7 +92,10 @@ pub fn generate(r: &mut Rng, tier: Tier) -> Scenario {
         }
     }
     let has_cycle = matches!(shape_note, "self-include" | "two-cycle");
-    let personality = if has_cycle {
+    let personality = if faults.is_empty() && !t2 && r.chance(1, 3) {
+        // the editor integration's real reader (no seam inside it, so no reader fault plan)
+        Personality::Lsp
+    } else if has_cycle {
         // a reader that neither refuses nor re-identifies a repeated file cannot be protected against
         // cycles by the parser; the personalities that exist for such input are these two
         *r.pick(&[Personality::Strict, Personality::SameId])
@@ -136,6 +133,20 @@ pub fn generate(r: &mut Rng, tier: Tier) -> Scenario {
         content_faults: vec![],
         note: format!("shape={shape_note} gen={g:?} cut={c:?}"),
     }
+}
+
+/// Insert a line at a random line boundary of a text (beginning, middle or end), keeping the
+/// text's trailing-newline habit.
+fn insert_line(text: &str, line: &str, r: &mut Rng) -> String {
+    let trailing = text.ends_with('\n') || text.is_empty();
+    let mut ls: Vec<String> = split_lines(text).iter().map(|s| (*s).to_string()).collect();
+    let at = r.usize(ls.len() + 1);
+    ls.insert(at, line.to_string());
+    let mut out = ls.join("\n");
+    if trailing {
+        out.push('\n');
+    }
+    out
 }
 
 /// One include directive met by the depth-first walk, in the order the parser imports them.
@@ -239,6 +250,31 @@ fn included_more_than_once(dirs: &[Directive], world: &World) -> bool {
     false
 }
 
+/// Which includes the LSP reader serves: walk like the parser; a document that exists is served,
+/// also when it is an ancestor (the parser refuses that one; `walk` accounts for it).
+fn lsp_model_oks(world: &World) -> Vec<bool> {
+    fn go(world: &World, path: &str, ancestors: &mut Vec<String>, oks: &mut Vec<bool>) {
+        let Some(text) = world.files.get(path) else { return };
+        ancestors.push(path.to_string());
+        for l in split_lines(text) {
+            if let Some(rel) = parse_include(l) {
+                let target = resolve(dir_of(path), rel);
+                let exists = target.as_ref().is_some_and(|t| world.files.contains_key(t));
+                oks.push(exists);
+                if let Some(t) = target {
+                    if exists && !ancestors.contains(&t) && ancestors.len() < 64 {
+                        go(world, &t, ancestors, oks);
+                    }
+                }
+            }
+        }
+        ancestors.pop();
+    }
+    let mut oks = Vec::new();
+    go(world, &world.base, &mut Vec::new(), &mut oks);
+    oks
+}
+
 fn key(d: &NDiag) -> Key {
     (d.file.clone(), d.line, d.col, d.end_col, d.level.clone(), d.title.clone(), d.description.clone())
 }
@@ -274,9 +310,8 @@ pub fn check(scn: &Scenario, stats: &mut Stats) -> Vec<Violation> {
     feats.insert("personality".into(), format!("{:?}", scn.personality));
     feats.insert("faults".into(), scn.reader_faults.iter().map(|f| f.kind.name()).collect::<Vec<_>>().join("+"));
 
-    let mut spec = LintSpec::new(&scn.world, e0, Api::Coded);
-    spec.personality = scn.personality;
-    spec.faults = scn.reader_faults.clone();
+    let spec = LintSpec::of(scn, e0, Api::Coded);
+    let is_lsp = scn.personality == Personality::Lsp;
     let split = lint::run(&spec);
     stats.inc("t1_incarnations");
     stats.add("imports", split.imports as u64);
@@ -296,10 +331,16 @@ pub fn check(scn: &Scenario, stats: &mut Stats) -> Vec<Violation> {
         // base imported but no include attempted although directives exist: only legal if unreachable text
         stats.inc("note:no_include_attempted");
     }
-    let oks: Vec<bool> = split.import_log.iter().skip(1).map(|r| r.ok).collect();
+    let oks: Vec<bool> = if is_lsp {
+        // the real LSP reader keeps no log: an include succeeds iff the document exists (cycles are
+        // answered with the same id and refused by the parser, which `walk` models)
+        lsp_model_oks(&scn.world)
+    } else {
+        split.import_log.iter().skip(1).map(|r| r.ok).collect()
+    };
     let (dirs, pasted) = walk(&scn.world, &oks);
     // sanity of the model: the k-th directive met is the k-th import requested
-    for (d, rec) in dirs.iter().zip(split.import_log.iter().skip(1)) {
+    for (d, rec) in dirs.iter().zip(split.import_log.iter().skip(1)).filter(|_| !is_lsp) {
         if d.requested != rec.requested {
             stats.inc("harness:walk_mismatch");
             if std::env::var("VERIF_DEBUG").is_ok() {
@@ -350,9 +391,17 @@ pub fn check(scn: &Scenario, stats: &mut Stats) -> Vec<Violation> {
     }
     // split side: take out exactly one error item per failed include, located on its directive
     let mut got: Vec<Key> = split.diags.iter().map(key).collect();
+    let mut titles_at: Vec<(String, usize, &str)> = Vec::new();
     for d in &failed {
         let rec = split.import_log.iter().skip(1).zip(&dirs).find(|(_, x)| x.file == d.file && x.line == d.line && !x.ok).map(|(r, _)| r.error.clone()).unwrap_or_default();
-        let title = if rec.is_empty() { "Cyclic dependency" } else { include_error_title(&rec) };
+        let missing = resolve(dir_of(&d.file), &d.requested).is_none_or(|t| !scn.world.files.contains_key(&t));
+        let title = if is_lsp && missing {
+            "Unexpected error" // InternalFileNotFound
+        } else if rec.is_empty() {
+            "Cyclic dependency"
+        } else {
+            include_error_title(&rec)
+        };
         let pos = got.iter().position(|k| k.0 == d.file && k.1 == d.line && k.4 == "Error" && k.5.starts_with(title));
         match pos {
             Some(p) => {
@@ -369,9 +418,13 @@ pub fn check(scn: &Scenario, stats: &mut Stats) -> Vec<Violation> {
                 return out;
             }
         }
-        // and not more than one
-        if got.iter().any(|k| k.0 == d.file && k.1 == d.line && k.4 == "Error" && k.5.starts_with(title)) {
-            out.push(viol("failed-include-reported-on-directive", "two-errors-on-directive".into(), format!("include at {}:{} reported more than once", d.file, d.line + 1), &feats));
+        titles_at.push((d.file.clone(), d.line, title));
+    }
+    // ... and not more than one per time the directive was met (a file included twice meets its own
+    // directives twice)
+    for (f, l, title) in &titles_at {
+        if got.iter().any(|k| k.0 == *f && k.1 == *l && k.4 == "Error" && k.5.starts_with(title)) {
+            out.push(viol("failed-include-reported-on-directive", "two-errors-on-directive".into(), format!("include at {f}:{} reported more often than it was met", l + 1), &feats));
             return out;
         }
     }
